@@ -60,6 +60,7 @@ type Call struct {
 	Doc  string `json:"doc"`  // document id
 	Gate int    `json:"gate"` // id of the gate this call parks in (0 = none)
 	Sh   string `json:"sh"`   // shape name of spec/Conc.tla (sched scenarios)
+	Hold bool   `json:"hold"` // Writer/Reader only: stall the pipe at gate Gate (worker parked inside the real minifier)
 }
 
 type Op struct {
@@ -179,6 +180,7 @@ var (
 	reXML    = regexp.MustCompile("[/+]xml$")
 	reGate   = regexp.MustCompile("^x-gatere/")
 	reCmd    = regexp.MustCompile("^x-cmdre/")
+	reCmdIO  = regexp.MustCompile("^x-cmdio/")
 	reUpper  = regexp.MustCompile("/x-upper$")
 	matchMTs = []string{"text/html", "text/css; inline=1", "image/svg+xml", "application/javascript", "text/x-ecmascript",
 		"application/ld+json", "application/rss+xml", "text/xml; charset=utf-8", "x-gatere/a; id=0", "x-cmdre/q", "a/x-upper", "text/plain", "x-cmd/cat"}
@@ -194,6 +196,8 @@ type reg struct {
 	xml  *mxml.Minifier
 	cmd1 *exec.Cmd
 	cmd2 *exec.Cmd
+	cmd3 *exec.Cmd // $in placeholder
+	cmd4 *exec.Cmd // $in and $out placeholders
 }
 
 // newReg builds the fully registered registry; the option structs are the SHARED values the
@@ -223,6 +227,8 @@ func newReg(optset int) *reg {
 	}
 	r.cmd1 = exec.Command("cat")
 	r.cmd2 = exec.Command("cat", "-")
+	r.cmd3 = exec.Command("cat", "$in.txt")
+	r.cmd4 = exec.Command("cp", "$in", "$out")
 	m := r.m
 	m.Add("text/html", r.html)
 	m.Add("text/css", r.css)
@@ -234,6 +240,8 @@ func newReg(optset int) *reg {
 	m.AddFuncRegexp(reGate, gateFn)
 	m.AddCmd("x-cmd/cat", r.cmd1)
 	m.AddCmdRegexp(reCmd, r.cmd2)
+	m.AddCmd("x-cmd/in", r.cmd3)
+	m.AddCmdRegexp(reCmdIO, r.cmd4)
 	m.AddFuncRegexp(reUpper, upperFn)
 	return r
 }
@@ -245,8 +253,8 @@ func cmdSnap(c *exec.Cmd) string {
 
 // snapshot renders every user-supplied option value (unexported fields included).
 func (r *reg) snapshot() string {
-	return fmt.Sprintf("html=%#v css=%#v svg=%#v js=%#v json=%#v xml=%#v cmd1=%s cmd2=%s url=%v",
-		*r.html, *r.css, *r.svg, *r.js, *r.json, *r.xml, cmdSnap(r.cmd1), cmdSnap(r.cmd2), r.m.URL)
+	return fmt.Sprintf("html=%#v css=%#v svg=%#v js=%#v json=%#v xml=%#v cmd1=%s cmd2=%s cmd3=%s cmd4=%s url=%v",
+		*r.html, *r.css, *r.svg, *r.js, *r.json, *r.xml, cmdSnap(r.cmd1), cmdSnap(r.cmd2), cmdSnap(r.cmd3), cmdSnap(r.cmd4), r.m.URL)
 }
 
 // ---------------------------------------------------------------- one call through one entry point
@@ -285,6 +293,22 @@ func paramStr(p map[string]string) string {
 	return sb.String()
 }
 
+// park stalls a stream wrapper at the call's gate: by now the wrapper's worker goroutine is inside the real
+// minifier (it has consumed input we wrote / produced output we read) and holds the registry's read lock.
+func park(c Call) {
+	if !c.Hold || c.Gate <= 0 || c.Gate >= maxGates {
+		return
+	}
+	if t := curGates.Load(); t != nil && t[c.Gate] != nil {
+		g := t[c.Gate]
+		select {
+		case g.arrived <- struct{}{}:
+		default:
+		}
+		<-g.release
+	}
+}
+
 func doCall(m *minify.M, c Call) (res result) {
 	src, ok := docs[c.Doc]
 	if !ok {
@@ -313,15 +337,35 @@ func doCall(m *minify.M, c Call) (res result) {
 			s, err = m.String(c.MT, string(in))
 			out = []byte(s)
 		case "Reader":
-			out, err = io.ReadAll(m.Reader(c.MT, bytes.NewReader(in)))
+			rd := m.Reader(c.MT, bytes.NewReader(in))
+			var first []byte
+			if c.Hold {
+				// read one byte: the worker has started writing its output and blocks on the rest of it
+				b1 := make([]byte, 1)
+				if n, _ := io.ReadFull(rd, b1); n == 1 {
+					first = b1
+					park(c)
+				}
+			}
+			out, err = io.ReadAll(rd)
+			out = append(first, out...)
 		case "Writer":
 			var buf bytes.Buffer
 			w := m.Writer(c.MT, &buf)
 			n := len(in)
 			cut1, cut2 := n/3, 2*n/3
-			for _, ch := range [][]byte{in[:cut1], in[cut1:cut2], in[cut2:]} {
+			if cut1 == 0 && n > 0 {
+				cut1 = 1
+				if cut2 < cut1 {
+					cut2 = cut1
+				}
+			}
+			for i, ch := range [][]byte{in[:cut1], in[cut1:cut2], in[cut2:]} {
 				if _, werr := w.Write(ch); werr != nil {
 					break // the minifier stopped reading; its error is what Close returns
+				}
+				if i == 0 && len(ch) > 0 {
+					park(c) // the first chunk was consumed: the worker is reading inside the minifier
 				}
 			}
 			err = w.Close()
@@ -701,9 +745,17 @@ func runShape(sc *Scenario) {
 		m2.AddFuncRegexp(reGate, wrapRec("gatere", gateFn))
 		m2.AddFunc("x-cmd/cat", wrapRec("cmd", cmdFn))
 		m2.AddFuncRegexp(reCmd, wrapRec("cmd", cmd2Fn))
+		_, _, cmd3Fn := r.m.Match("x-cmd/in")
+		_, _, cmd4Fn := r.m.Match("x-cmdio/x")
+		m2.AddFunc("x-cmd/in", wrapRec("cmdin", cmd3Fn))
+		m2.AddFuncRegexp(reCmdIO, wrapRec("cmdin", cmd4Fn))
 		m2.AddFuncRegexp(reUpper, wrapRec("upper", upperFn))
 		recRoot, recStack = nil, nil
-		res, ok := doCallDL(m2, Call{E: "Bytes", MT: c.MT, Doc: c.Doc})
+		entry := "Bytes"
+		if c.E == "Match" {
+			entry = "Match" // the recorder sits in the function Match returns
+		}
+		res, ok := doCallDL(m2, Call{E: entry, MT: c.MT, Doc: c.Doc})
 		if !ok {
 			blockedSeq(sc, i, c)
 			break
